@@ -15,6 +15,10 @@ hostile_client   a scripted raw-socket client against a real Listener: at each
                  a torn frame, an early close; or behaves as a *reference* peer
                  with unusual challenge values.
 hostile_listener the mirror image against a real Client().
+silent           a peer that says nothing at the digest step for longer than
+                 CONNECTION_TIMEOUT (raw client against a real Listener, raw
+                 key-less listener against a real Client): never welcomed.
+                 (pairs also re-use a Listener after it turned a peer away.)
 types/authstring non-bytes keys must give TypeError and never be used;
                  AuthenticationString must refuse pickling outside process
                  spawning (also while another thread is spawning) and arrive
